@@ -31,7 +31,9 @@ RULE = ('case = batch of generated values, one real task per value (JSONData dic
         'distinct = typed canonical digest of (kind, value)')
 REQUIRED = ['values', 'name_mode_cases', 'task_classes_derived_from_a_task_of_another_kind', 'failed_first_attempts', 'long_sequences', 'forced_type_morphs', 'loaded_arrays_mutated_in_place', 'loaded_json_values_mutated_in_place', 'json_values', 'numpy_values', 'pandas_values', 'generated_values', 'lazy_values', 'listnp_values', 'dir_values',
             'fresh_chain_loads', 'fresh_process_loads', 'file_hash_checks', 'falsy_top_level', 'zero_d_arrays', 'lists_over_10_arrays']
-ASSUMPTIONS = ['domain per the property statement: NaN/inf in JSON, tuples, non-string keys, lone surrogates, integers outside 64 bit, '
+ASSUMPTIONS = ['with results named after configs, `<name>_tmp` and `<name>_error` are the library\'s work / error directory names of directory-type results (part of the '
+               'on-disk layout): configs whose names differ by exactly these suffixes are not generated',
+               'domain per the property statement: NaN/inf in JSON, tuples, non-string keys, lone surrogates, integers outside 64 bit, '
                'object/structured arrays are outside it and not generated',
                'mapping order is not demanded for JSON values (the saver sorts keys)',
                'FigureData/H5Data/ContinuesData are not in the statement\'s list and are not exercised here']
@@ -455,24 +457,43 @@ def run_case(case) -> CaseResult:
         import c06mod
         c06mod.VALUES = values
         cfg_name, pmode = 'c06', True
+        sib_name = 'exp.v2'
         if case.get('name_mode'):
-            # results addressed by the config name; the name has dots, and a sibling configuration `exp.v2` has stored OTHER values of the same tasks before
-            cfg_name, pmode = 'exp.v1', False
+            # results addressed by the config name; a sibling configuration whose name differs by a suffix (`exp.v1`/`exp.v2`, `model`/`model_old`,
+            # `model_old`/`model`, `model`/`model_v2`, `model`/`model.old`) has stored OTHER values of the same tasks before
+            cfg_name, sib_name = rng.choice([('exp.v1', 'exp.v2'), ('model', 'model_old'), ('model_old', 'model'), ('model', 'model_v2'), ('model', 'model.old'),
+                                             ('model', 'model_old')])
+            pmode = False
             res.count('name_mode_cases')
+            if cfg_name != 'exp.v1':
+                res.count('name_mode_sibling_names_differing_by_a_suffix')
 
         def mkchain(name=None):
             return Config(data_dir, name=name or cfg_name, data={'tasks': ['c06mod.*']}).chain(parameter_mode=pmode)
         if case.get('name_mode'):
             rng2 = random.Random(case['seed'] + 1)
-            c06mod.VALUES = [gen_value(rng2, k) for k in kinds]
-            sib = mkchain('exp.v2')
+            sib_values = [gen_value(rng2, k) for k in kinds]
+            c06mod.VALUES = sib_values
+            sib = mkchain(sib_name)
+            sib_ok = []
             for i in range(len(kinds)):
                 try:
                     sib[f't{i}'].value
+                    sib_ok.append(i)
                 except Exception:
                     pass
             c06mod.VALUES = values
             c06mod.RUNS.clear()
+            # nothing is stored for THIS configuration yet, whatever its sibling has stored
+            probe = mkchain()
+            for i in range(len(kinds)):
+                try:
+                    if probe[f't{i}'].has_data:
+                        res.violate(f'{kinds[i]}: config `{cfg_name}` reports a stored result although only its sibling `{sib_name}` has computed anything',
+                                    witness={'kind': kinds[i], 'index': i, 'seed': case['seed'], 'configs': [cfg_name, sib_name]})
+                except Exception as e:
+                    res.violate(f'{kinds[i]}: has_data of config `{cfg_name}` raised {type(e).__name__}: {e}', witness={'kind': kinds[i], 'index': i, 'seed': case['seed']})
+            del probe
         # a failed earlier attempt of some tasks: the result could not be stored completely; the retry returns the (smaller) final value
         first = {}
         for i, (k, v) in enumerate(zip(kinds, values)):
@@ -603,6 +624,23 @@ def run_case(case) -> CaseResult:
                 if tcanon(got3) != canon_run[i]:
                     res.violate(f'{k}: a later chain of the same process loaded {short(got3, 300)} after a consumer had modified ITS loaded copy in place; run returned '
                                 f'{short(v, 300)}', witness=wit)
+        if case.get('name_mode') and not res.violations:
+            # ... and the sibling's results are still its own
+            sibc = mkchain(sib_name)
+            for i in sib_ok:
+                k = kinds[i]
+                wit = {'kind': k, 'index': i, 'seed': case['seed'], 'configs': [cfg_name, sib_name]}
+                try:
+                    if not sibc[f't{i}'].has_data:
+                        res.violate(f'{k}: the result that config `{sib_name}` had stored is gone after config `{cfg_name}` computed its own', witness=wit)
+                        continue
+                    gots = observed_form(k, sibc[f't{i}'].value)
+                except Exception as e:
+                    res.violate(f'{k}: loading the result of config `{sib_name}` after config `{cfg_name}` computed its own raised {type(e).__name__}: {str(e)[:200]}', witness=wit)
+                    continue
+                res.count('sibling_results_rechecked')
+                if tcanon(gots) != tcanon(sib_values[i]):
+                    res.violate(f'{k}: config `{sib_name}` now loads {short(gots, 300)}, its run had returned {short(sib_values[i], 300)} (config `{cfg_name}` computed in between)', witness=wit)
         after = tree_hash(data_dir)
         res.count('file_hash_checks', len(before))
         if before != after:
